@@ -81,6 +81,9 @@ class Loop:
             if "." in name:
                 base, attr = name.split(".", 1)
                 obj = frame.env.lookup(base)
+                while "." in attr:              # a nested path: self.queue.field
+                    first, attr = attr.split(".", 1)
+                    obj = obj.fields[first]
                 cur = obj.fields.get(attr)
                 obj.fields[attr] = fresh(ex, schema, name) if schema is not None \
                     else fresh_like(ex, cur, name)
